@@ -133,7 +133,10 @@ def strat(draw):
         s = draw(st.one_of(st.just([]), st.just([None]), st.lists(one, min_size=1, max_size=2), st.tuples(one, st.none()).map(list),
                            _progs()[1]))
     else:
-        s = draw(st.one_of(st.just([]), st.lists(one, min_size=1, max_size=2), _progs()[1]))
+        s = draw(st.one_of(st.just([]), st.lists(one, min_size=1, max_size=2), _progs()[1],
+                           st.sampled_from([[{'k': 'int', 'v': 38}, {'k': 'int', 'v': 5}, {'k': 'int', 'v': 196}],
+                                            [{'k': 'int', 'v': 4}, {'k': 'int', 'v': 58}, {'k': 'int', 'v': 5}, {'k': 'int', 'v': 9}],
+                                            [{'k': 'name', 'v': 'bold'}, {'k': 'int', 'v': 48}, {'k': 'int', 'v': 2}, {'k': 'int', 'v': 1}, {'k': 'int', 'v': 2}, {'k': 'int', 'v': 3}]])))
     return {'p': p, 'pat': pat, 'regex': rx, 'mc': draw(st.booleans()), 'n': draw(st.sampled_from([-1, -1, -1, 0, 1, 2, 7, -5])), 's': s, 'un': un}
 
 
